@@ -58,6 +58,27 @@ def package_of(path):
     return re.search(r'name\s*=\s*"([^"]+)"', toml).group(1)
 
 
+DEPENDENTS = {
+    'vibesql-types': None, 'vibesql-ast': None, 'vibesql-parser': None, 'vibesql-catalog': None,      # None = whole workspace
+    'vibesql-storage': ['vibesql-storage', 'vibesql-executor', 'vibesql', 'vibesql-cli', 'vibesql-server'],
+    'vibesql-executor': ['vibesql-executor', 'vibesql', 'vibesql-cli', 'vibesql-server'],
+    'vibesql-server': ['vibesql-server'], 'vibesql-cli': ['vibesql-cli'], 'vibesql-python-bindings': ['vibesql-python-bindings'],
+}
+
+
+def scoped_packages(patch):
+    crates = set(re.findall(r'^\+\+\+ b/crates/([a-z-]+)/', open(patch).read(), re.M))
+    out = []
+    for c in crates:
+        dep = DEPENDENTS.get(c, None)
+        if dep is None:
+            return None
+        for x in dep:
+            if x not in out:
+                out.append(x)
+    return out
+
+
 def main():
     args = [a for a in sys.argv[1:] if not a.startswith('--')]
     jobs = '8'
@@ -105,10 +126,23 @@ def main():
             conf['demo_with_patch'] = 'fails' if (rc != 0 and built) else ('passes' if rc == 0 else 'build error')
             conf['demo_with_patch_failures'] = [l for l in out.splitlines() if re.match(r'test .* FAILED|.*panicked at', l)][:6]
             os.remove(demo_dst)
-            rc, out = sh(['cargo', 'test', '--workspace', '--no-fail-fast', '--offline', '-j', jobs], log=os.path.join('/tmp/cm', f'{meta["property"]}_{meta["mutant"]}.log'))
+            suite_cmd = ['cargo', 'test', '--workspace', '--no-fail-fast', '--offline', '-j', jobs]
+            scope_note = 'whole workspace'
+            if '--scoped' in sys.argv:
+                pk = scoped_packages(os.path.join(d, 'patch.diff'))
+                if pk:
+                    suite_cmd = ['cargo', 'test', '--no-fail-fast', '--offline', '-j', jobs] + [x for p_ in pk for x in ('-p', p_)]
+                    scope_note = 'packages that contain or depend on the changed crates: ' + ' '.join(pk)
+            rc, out = sh(suite_cmd, log=os.path.join('/tmp/cm', f'{meta["property"]}_{meta["mutant"]}.log'))
             res = parse(out)
             passed = {k for k, v in res.items() if v == 'ok'}
-            miss = sorted(stable - passed)
+            if '--scoped' in sys.argv and scope_note != 'whole workspace':
+                # only the tests of the packages that were run can be compared
+                seen_targets = {k.split('::', 1)[0] for k in res}
+                stable_here = {t for t in stable if t.split('::', 1)[0] in seen_targets}
+            else:
+                stable_here = stable
+            miss = sorted(stable_here - passed)
             regress = [t for t in miss if res.get(t) == 'FAILED']
             flaky = []
             for t in list(regress):
@@ -119,13 +153,13 @@ def main():
                     rc2, out2 = sh(['cargo', 'test', '--workspace', '--offline', '-j', jobs, '--lib', '--', '--exact', name])
                 if rc2 == 0 and re.search(r'test result: ok\. [1-9]', out2):
                     regress.remove(t); flaky.append(t)
-            conf['suite'] = {'command': 'RUST_MIN_STACK=268435456 cargo test --workspace --no-fail-fast --offline', 'tests_seen': len(res),
-                             'passed': len(passed), 'stable_pass_total': len(stable),
+            conf['suite'] = {'command': 'RUST_MIN_STACK=268435456 ' + ' '.join(suite_cmd), 'scope': scope_note, 'tests_seen': len(res),
+                             'passed': len(passed), 'stable_pass_total': len(stable_here),
                              'stable_pass_regressions': regress, 'failed_once_but_pass_alone': flaky,
                              'stable_pass_not_run': len([t for t in miss if t not in res])}
         conf['kept'] = bool(conf.get('patch_applies') and conf.get('builds_with_patch') and conf.get('demo_on_unmodified_tree') == 'passes'
                             and conf.get('demo_with_patch') == 'fails' and not conf.get('suite', {}).get('stable_pass_regressions')
-                            and conf.get('suite', {}).get('tests_seen', 0) > 3000)
+                            and conf.get('suite', {}).get('tests_seen', 0) > (3000 if '--scoped' not in sys.argv else 10))
         conf['wall_s'] = int(time.time() - t0)
         meta['confirmation'] = conf
         prev = {}
